@@ -439,6 +439,16 @@ def walk(pterm, doc):
             conds = part_conds(part, ck)
             if conds is None:
                 continue
+            # a bare key-kind (index-kind) leaf in the part's general condition slot cannot filter a list
+            # (mapping): the part does not apply.  (Combined with a value component it becomes a tree, which
+            # the library evaluates differently - not judged.)
+            wrong = "key" if ck == "list" else "index"
+            gc = part.get("condition") if part["p"] != "prim" else None
+            if gc is not None and gc.get("c") == "leaf" and gc["kind"] == wrong:
+                others = [k for k in (("value",) if part["p"] == "mol" else ("value", "key", "index")) if part.get(k) is not None]
+                if others:
+                    return SKIP
+                continue
             for k, v in items_of(node):
                 ok = True
                 for c in conds:
